@@ -19,10 +19,26 @@ type Case struct {
 	Init  *isa.State   `json:"-"`
 	Cfg   mach.Config  `json:"config"`
 	Sched Sched        `json:"schedule"`
+	// Marks are instruction positions the property's oracle refers to (shadow
+	// ranges, exit point); removing an instruction re-anchors them.
+	Marks []int `json:"marks,omitempty"`
+	// Aux is property-specific data (e.g. registers the tail produces).
+	Aux []int `json:"aux,omitempty"`
 }
 
 func (c *Case) Clone() *Case {
-	return &Case{Prog: c.Prog.Clone(), Init: c.Init.Clone(), Cfg: c.Cfg, Sched: c.Sched}
+	return &Case{Prog: c.Prog.Clone(), Init: c.Init.Clone(), Cfg: c.Cfg, Sched: c.Sched,
+		Marks: append([]int(nil), c.Marks...), Aux: append([]int(nil), c.Aux...)}
+}
+
+// RemoveAt deletes instruction i and re-anchors labels and marks.
+func (c *Case) RemoveAt(i int) {
+	c.Prog.RemoveAt(i)
+	for k, m := range c.Marks {
+		if m > i {
+			c.Marks[k] = m - 1
+		}
+	}
 }
 
 // CheckFn evaluates a case and returns its violation class (OK if none, ""
@@ -92,7 +108,7 @@ func Minimize(c *Case, class string, check CheckFn, maxEvals int) (*Case, int) {
 		for i := 0; i+chunk <= len(cur.Prog.Insts); {
 			cand := cur.Clone()
 			for k := 0; k < chunk; k++ {
-				cand.Prog.RemoveAt(i)
+				cand.RemoveAt(i)
 			}
 			if try(cand) {
 				removed = true
@@ -119,7 +135,7 @@ func Minimize(c *Case, class string, check CheckFn, maxEvals int) (*Case, int) {
 	for i := 0; i < len(cur.Prog.Insts); {
 		if cur.Prog.Insts[i].Op == isa.NOP {
 			cand := cur.Clone()
-			cand.Prog.RemoveAt(i)
+			cand.RemoveAt(i)
 			if try(cand) {
 				continue
 			}
